@@ -61,74 +61,60 @@ pub fn braille_mathml(mathml: Element, nav_node_id: &str) -> Result<(String, usi
     /// if 'fill_range' is true, the interior will be highlighted
     /// Returns the braille string (highlighted) along with the start/end *character* of the highlight (whole string if no highlight)
     fn highlight_braille_chars(braille: String, braille_code: &str, fill_range: bool) -> (String, usize, usize) {
-        let mut braille = braille;
-        // some special (non-braille) chars weren't converted to having dots 7 & 8 to indicate navigation position
-        // they need to be added to the start
+        // Work on characters, not bytes: braille cells are three bytes long, but the string can also contain characters
+        // that have no braille translation and were passed through (e.g., ASCII), so byte offsets can't be turned into positions.
+        let mut chars = braille.chars().collect::<Vec<char>>();
 
-        // find start and end (byte) indexes of the highlighted region (braille chars have length=3 bytes)
-        let start = braille.find(is_highlighted);
-        let end = braille.rfind(is_highlighted);
+        // find start and end indexes of the highlighted region
+        let start = chars.iter().position(|&ch| is_highlighted(ch));
+        let end = chars.iter().rposition(|&ch| is_highlighted(ch));
         if start.is_none() {
             assert!(end.is_none());
-            let end = braille.len();
-            return (braille, 0, end/3);
+            let end = chars.len();
+            return (braille, 0, end);
         };
 
         let end = end.unwrap();         // always exists if start exists
-        let start = highlight_first_indicator(&mut braille, braille_code, start.unwrap(), end);
+        let start = highlight_first_indicator(&mut chars, braille_code, start.unwrap(), end);
 
-        if start == end {
-            return (braille, start/3, end/3);
+        if fill_range {
+            for ch in &mut chars[start..end] {
+                *ch = highlight(*ch);
+            };
         }
+        return (chars.into_iter().collect::<String>(), start, end);
 
-        if !fill_range {
-            return (braille, start/3, end/3);
-        }
-
-        let mut result = String::with_capacity(braille.len());
-        result.push_str(&braille[..start]);
-        let highlight_region =&mut braille[start..end];
-        for ch in highlight_region.chars() {
-            result.push( highlight(ch) );
-        };
-        result.push_str(&braille[end..]);
-        return (result, start/3, end/3);
-
-        /// Return the byte index of the first place to highlight
-        fn highlight_first_indicator(braille: &mut String, braille_code: &str, start_index: usize, end_index: usize) -> usize {
-            // chars in the braille block range use 3 bytes -- we can use that to optimize the code some
-            let first_ch = unhighlight(braille[start_index..start_index+3].chars().next().unwrap());
+        /// Return the index of the first place to highlight
+        fn highlight_first_indicator(chars: &mut [char], braille_code: &str, start_index: usize, end_index: usize) -> usize {
+            let first_ch = unhighlight(chars[start_index]);
 
             // need to highlight (optional) capital/number, language, and style (max 2 chars) also in that (rev) order
-            let mut prefix_ch_index = std::cmp::max(0, start_index as isize - 5*3) as usize;
+            let mut prefix_ch_index = start_index.saturating_sub(5);
             if prefix_ch_index == 0 && braille_code == "UEB" {
                 // don't count the word or passage mode as part of a indicator
-                if braille.starts_with("⠰⠰⠰") {
-                    prefix_ch_index = 9;
-                } else if braille.starts_with("⠰⠰") {
-                    prefix_ch_index = 6;
+                if chars.starts_with(&['⠰', '⠰', '⠰']) {
+                    prefix_ch_index = 3;
+                } else if chars.starts_with(&['⠰', '⠰']) {
+                    prefix_ch_index = 2;
                 }
+                prefix_ch_index = std::cmp::min(prefix_ch_index, start_index);
             }
-            let indicators = &braille[prefix_ch_index..start_index];   // chars to be examined
-            let i_byte_start = start_index - 3 * match braille_code {
-                "Nemeth" => i_start_nemeth(indicators, first_ch),
-                _ => i_start_ueb(indicators),               // treat all the other like UEB because they probably have similar number and letter prefixes
+            let indicators = chars[prefix_ch_index..start_index].iter().collect::<String>();   // chars to be examined
+            let i_start = start_index - match braille_code {
+                "Nemeth" => i_start_nemeth(&indicators, first_ch),
+                _ => i_start_ueb(&indicators),               // treat all the other like UEB because they probably have similar number and letter prefixes
             };
-            if i_byte_start < start_index {
+            if i_start < start_index {
                 // remove old highlight as long as we don't wipe out the end highlight
                 if start_index < end_index {
-                    let old_first_char_bytes = start_index..start_index+3;
-                    let replacement_str = unhighlight(braille[old_first_char_bytes.clone()].chars().next().unwrap()).to_string();
-                    braille.replace_range(old_first_char_bytes, &replacement_str);
+                    chars[start_index] = unhighlight(chars[start_index]);
                 }
 
                 // add new highlight
-                let new_first_char_bytes = i_byte_start..i_byte_start+3;
-                let replacement_str = highlight(braille[new_first_char_bytes.clone()].chars().next().unwrap()).to_string();
-                braille.replace_range(new_first_char_bytes, &replacement_str);
+                chars[i_start] = highlight(chars[i_start]);
             }
 
-            return i_byte_start;
+            return i_start;
         }
 
     }
@@ -209,16 +195,21 @@ pub fn braille_mathml(mathml: Element, nav_node_id: &str) -> Result<(String, usi
 //   they would need to be unshifted for the external world
 fn is_highlighted(ch: char) -> bool {
     let ch_as_u32 = ch as u32;
-    return (0x28C0..0x28FF).contains(&ch_as_u32);           // 0x28C0..0x28FF all have dots 7 & 8 on
+    return (0x28C0..=0x28FF).contains(&ch_as_u32);           // 0x28C0..=0x28FF all have dots 7 & 8 on
 }
 
 fn highlight(ch: char) -> char {
-    return unsafe{char::from_u32_unchecked(ch as u32 | 0xC0)};    // 0x28C0..0x28FF all have dots 7 & 8 on
+    let ch_as_u32 = ch as u32;
+    if (0x2800..=0x28FF).contains(&ch_as_u32) {             // only braille cells have dots to turn on
+        return unsafe{char::from_u32_unchecked(ch_as_u32 | 0xC0)};    // 0x28C0..=0x28FF all have dots 7 & 8 on
+    } else {
+        return ch;
+    }
 }
 
 fn unhighlight(ch: char) -> char {
     let ch_as_u32 = ch as u32;
-    if (0x28C0..0x28FF).contains(&ch_as_u32) {              // 0x28C0..0x28FF all have dots 7 & 8 on
+    if (0x28C0..=0x28FF).contains(&ch_as_u32) {              // 0x28C0..=0x28FF all have dots 7 & 8 on
         return unsafe{char::from_u32_unchecked(ch_as_u32 & 0x283F)};
     } else {
         return ch;
@@ -290,7 +281,7 @@ pub fn get_navigation_node_from_braille_position(mathml: Element, position: usiz
         N_PROBES.with(|n| {*n.borrow_mut() += 1});
         let (braille, start, end) = braille_mathml(mathml, node_id)?;
         // debug!("find_navigation_node ({}, id={}): start/end={}/{};  target_position={}", name(&node), node_id, start, end, target_position);
-        if is_leaf(node) && start == 0 && end == braille.len()/3 {
+        if is_leaf(node) && start == 0 && end == braille.chars().count() {
             // nothing highlighted -- probably invisible char not represented in braille -- continue looking to the right
             return Ok( SearchState {
                 status: SearchStatus::LookRight,
